@@ -167,10 +167,34 @@ def _install(it, box):
     box["log"] = log
     R = "svg_reuse"
 
+    friendly_cmds = {}
+
     def ident(shape):
         if isinstance(shape, Rec):
-            return Tok("shape", shape.f.get("d").cmds[0][1][0] if isinstance(shape.f.get("d"), PathData) else "?")
+            d = shape.f.get("d")
+            name = shape.f.get("__friendly__")
+            if name is not None:
+                # the affine-friendly form of a shape is that form only as long as its commands are the ones _affine_friendly produced
+                if isinstance(d, PathData) and repr(d.cmds) == friendly_cmds.get(name):
+                    return Tok("friendly", Tok("shape", RF.sym(name + "x")))
+                return Tok("altered", Tok("friendly", Tok("shape", RF.sym(name + "x"))), repr(getattr(d, "cmds", d)))
+            return Tok("shape", d.cmds[0][1][0] if isinstance(d, PathData) else "?")
         return shape
+
+    def friendly(i, a, k):
+        # a relative path with symbolic arguments, so that code which walks or filters it can be followed
+        src = a[0]
+        tok = ident(src)
+        name = repr(tok.term[1])[:-1] if isinstance(tok, Tok) and tok.term[0] == "shape" else None
+        if name is None or not isinstance(src, Rec):
+            return Tok("friendly", tok)
+        out = i.deepcopy(src)
+        cmds = [("M", (RF.sym(name + "fx"), RF.sym(name + "fy"))), ("l", (RF.sym(name + "f1x"), RF.sym(name + "f1y"))),
+                ("c", tuple(RF.sym(f"{name}f2{j}") for j in range(6))), ("l", (RF.sym(name + "f3x"), RF.sym(name + "f3y"))), ("z", ())]
+        out.f["d"] = PathData(cmds)
+        out.f["__friendly__"] = name
+        friendly_cmds[name] = repr(out.f["d"].cmds)
+        return out
 
     def try_affine(i, a, k):
         n = len([e for e in log if e[0] == "verify"])
@@ -186,13 +210,13 @@ def _install(it, box):
 
     it.hooks[(R, "_try_affine")] = try_affine
     it.hooks[("svg_types", "SVGShape.almost_equals")] = almost
-    it.hooks[(R, "_affine_friendly")] = lambda i, a, k: Tok("friendly", ident(a[0]))
-    it.hooks[(R, "_first_move")] = lambda i, a, k: (RF.sym(f"{a[0]!r}.x0"), RF.sym(f"{a[0]!r}.y0"))
-    it.hooks[(R, "_vectors")] = lambda i, a, k: Tok("vectors", a[0])
-    it.hooks[(R, "_nth_vector")] = lambda i, a, k: Tok("vector", a[0], a[1])
+    it.hooks[(R, "_affine_friendly")] = friendly
+    it.hooks[(R, "_first_move")] = lambda i, a, k: (RF.sym(f"{ident(a[0])!r}.x0"), RF.sym(f"{ident(a[0])!r}.y0"))
+    it.hooks[(R, "_vectors")] = lambda i, a, k: Tok("vectors", ident(a[0]))
+    it.hooks[(R, "_nth_vector")] = lambda i, a, k: Tok("vector", ident(a[0]), a[1])
     it.hooks[(R, "_angle")] = lambda i, a, k: RF.sym(f"angle[{a[0]!r}]")
     it.hooks[(R, "_affine_vec2vec")] = lambda i, a, k: AffTok.atom(f"vec2vec[{a[0]!r}->{a[1]!r}]")
-    it.hooks[(R, "_apply_affine")] = lambda i, a, k: Tok("image", a[0], a[1])
+    it.hooks[(R, "_apply_affine")] = lambda i, a, k: Tok("image", a[0], ident(a[1]))
 
     def first_sig(i, a, k):
         n = len([e for e in log if e[0] == "significant"])
